@@ -45,6 +45,10 @@ pub struct Hub {
     /// messages sent, by bus name
     pub counts: Mutex<HashMap<&'static str, u64>>,
     pub max_datagram: Mutex<usize>,
+    /// a lagging node: (node, from ms, to ms) - in that interval it receives no shreds and no repair answers
+    /// from correct validators (votes and certificates still arrive), so it knows certificates but not blocks
+    pub lag: Option<(usize, u64, u64)>,
+    pub byz: HashSet<usize>,
 }
 
 impl Hub {
@@ -126,6 +130,16 @@ impl<S: Clone + Send + Sync + 'static, R: Send + 'static> SimNet<S, R> {
         let Some(tx) = self.out.boxes.lock().unwrap().get(&addr).cloned() else {
             return;
         };
+        if let Some((node, from, to)) = self.hub.lag
+            && (self.out.name == "shreds" || self.out.name == "repair_resp")
+            && (addr.port() as usize).saturating_sub(1000) / 10 == node
+            && !self.hub.byz.contains(&self.owner)
+        {
+            let now = self.hub.now_ms();
+            if now >= from && now < to {
+                return;
+            }
+        }
         if self.out.name == "txs" {
             // client -> node transactions: delivered at once and in order
             let _ = tx.send(msg.clone());
@@ -200,6 +214,8 @@ pub struct SimConfig {
     /// > 0: the harness triggers standstill recovery at every node every so many virtual ms (the node's own
     /// detector measures wall-clock time with std::time::Instant, which does not move under the paused clock)
     pub standstill_ms: u64,
+    /// (node, from ms, to ms): see `Hub::lag`
+    pub lag: Option<(usize, u64, u64)>,
     pub seed: u64,
     pub gst_ms: u64,
     pub chaos_ms: u64,
@@ -301,6 +317,8 @@ pub fn run(cfg: &SimConfig) -> anyhow::Result<(Vec<Value>, Value)> {
             crashed: Mutex::new(HashSet::new()),
             counts: Mutex::new(HashMap::new()),
             max_datagram: Mutex::new(0),
+            lag: cfg.lag,
+            byz: cfg.byz.iter().copied().collect(),
         });
         let mut rng = StdRng::seed_from_u64(cfg.seed ^ 0xA1FE_6107);
         let mut sks = Vec::new();
@@ -421,6 +439,8 @@ pub fn run(cfg: &SimConfig) -> anyhow::Result<(Vec<Value>, Value)> {
         // Byzantine players
         for (i, net, snet, hostile) in byz_inboxes {
             let mode = cfg.byz_mode.clone();
+            let lag = cfg.lag;
+            let hub_b = hub.clone();
             let sk = voting_sks[i].clone();
             let leader_sk = sks[i].clone();
             let shred_addrs: Vec<(usize, SocketAddr)> = validators
@@ -449,6 +469,8 @@ pub fn run(cfg: &SimConfig) -> anyhow::Result<(Vec<Value>, Value)> {
                 let mut best_parent: (Slot, alpenglow::crypto::merkle::BlockHash) =
                     (Slot::genesis(), alpenglow::crypto::merkle::GENESIS_BLOCK_HASH);
                 let mut older_parent = best_parent.clone();
+                let mut twins: HashMap<u64, Vec<(alpenglow::crypto::merkle::BlockHash, Vec<Shred>)>> = HashMap::new();
+                let mut replayed: HashSet<u64> = HashSet::new();
                 let mut served: HashSet<u64> = HashSet::new();
                 let mut hostile_done: HashSet<u64> = HashSet::new();
                 loop {
@@ -543,6 +565,24 @@ pub fn run(cfg: &SimConfig) -> anyhow::Result<(Vec<Value>, Value)> {
                             }
                         }
                     }
+                    // a late copy of the OTHER block of an own, already certified slot for the lagging node
+                    if let (Some((lag_node, _, _)), ConsensusMessage::Cert(c)) = (lag, &m)
+                        && let Some(h) = c.block_hash()
+                        && let Some(tw) = twins.get(&c.slot().inner())
+                        && replayed.insert(c.slot().inner())
+                    {
+                        for (th, shreds) in tw {
+                            if th != h {
+                                if let Some((_, a)) = shred_addrs.iter().find(|(j, _)| *j == lag_node) {
+                                    for sh in shreds {
+                                        let _ = snet.send(sh, *a).await;
+                                    }
+                                }
+                                record(VerifEvent::Harness(json!({"e": "Hostile", "from": i, "s": c.slot().inner(),
+                                    "what": "late twin to lagging node"}).to_string()));
+                            }
+                        }
+                    }
                     if mode == "equivocate" || mode == "hostile" || mode == "equivtx" {
                         // track certified blocks
                         if let ConsensusMessage::Cert(c) = &m
@@ -632,12 +672,20 @@ pub fn run(cfg: &SimConfig) -> anyhow::Result<(Vec<Value>, Value)> {
                                            "x": hash_name(&names3, &hx), "y": hash_name(&names3, &hy)}).to_string(),
                                 ));
                                 for (j, a) in &shred_addrs {
+                                    // the lagging node gets nothing now: the other twin reaches it late (see above)
+                                    if lag.is_some_and(|(l, from, to)| l == *j && hub_b.now_ms() >= from && hub_b.now_ms() < to) {
+                                        continue;
+                                    }
                                     // a seeded split of the receivers, fixed for the whole window
                                     let set = if (split >> (j % 32)) & 1 == 0 { &sx } else { &sy };
                                     for sh in set.iter() {
                                         let _ = snet.send(sh.as_shred(), *a).await;
                                     }
                                 }
+                                twins.insert(s, vec![
+                                    (hx.clone(), sx.iter().map(|v| v.as_shred().clone()).collect()),
+                                    (hy.clone(), sy.iter().map(|v| v.as_shred().clone()).collect()),
+                                ]);
                                 par_x = (Slot::new(s), hx);
                                 par_y = (Slot::new(s), hy);
                                 tokio::time::sleep(Duration::from_millis(120)).await;
